@@ -701,6 +701,9 @@ func (ctx Ctx) integerConversion(s ast.Node, x ast.Expr, width int) coq.Expr {
 }
 
 func (ctx Ctx) copyExpr(n ast.Node, dst ast.Expr, src ast.Expr) coq.Expr {
+	if _, ok := ctx.typeOf(src).Underlying().(*types.Slice); !ok {
+		ctx.unsupported(n, "copy from %v (only slices can be copied)", ctx.typeOf(src))
+	}
 	e := sliceElem(ctx.typeOf(dst))
 	return coq.NewCallExpr(coq.GallinaIdent("SliceCopy"),
 		ctx.coqTypeOfType(n, e),
